@@ -50,8 +50,8 @@ type stubStream struct {
 	breakOnSendErr bool
 	// recvLag: how long after the failed Send the receive side learns of it (the send side of a
 	// gRPC stream can notice a failure first)
-	recvLag time.Duration
-	broken  chan struct{}
+	recvLag        time.Duration
+	broken         chan struct{}
 	brokenOnce     sync.Once
 	sendFailed     atomic.Bool
 	recvReturnsErr atomic.Bool
